@@ -96,4 +96,26 @@ theorem observe_tree_matches_source (s : State) (now : Nat) (b id : Str) (ids : 
   cases h1 : (isPending s now (makeUpkeepKey b id)).1 <;> cases h2 : (isPending s now (makeUpkeepKey b id)).2 <;>
     simp_all [Gen.Src.c17ObserveLoopTree]
 
+/-- exit kinds and (value, error) pairing of the glue's trees: the accept loop leaves by `return` with an error
+(not `continue` to the next key); the transmit loop leaves by `return true, nil`; `Observe` drops an id by `continue`;
+`ShouldAcceptFinalizedReport` returns an error exactly at the exits the model maps to one (`shouldAcceptSrc`), and
+`ShouldTransmitAcceptedReport` at its exits 1 and 2 -/
+theorem glue_exit_kinds_match_source :
+    Gen.Src.c17ShouldAcceptLoopTreeKind 1 = 1 ∧ Gen.Src.c17ShouldAcceptLoopTreeNil2 1 = false ∧
+    Gen.Src.c17ShouldTransmitLoopTreeKind 1 = 1 ∧ Gen.Src.c17ShouldTransmitLoopTreeNil2 1 = true ∧
+    Gen.Src.c17ObserveLoopTreeKind 1 = 2 ∧
+    Gen.Src.c17ShouldAcceptTreeNil2 1 = true ∧ Gen.Src.c17ShouldAcceptTreeNil2 2 = false ∧
+    Gen.Src.c17ShouldAcceptTreeNil2 3 = false ∧ Gen.Src.c17ShouldAcceptTreeNil2 5 = true ∧
+    Gen.Src.c17ShouldTransmitTreeNil2 1 = false ∧ Gen.Src.c17ShouldTransmitTreeNil2 2 = false ∧
+    Gen.Src.c17ShouldTransmitTreeNil2 3 = true ∧ Gen.Src.c17ShouldTransmitTreeNil2 4 = true ∧
+    (∀ e, 1 ≤ e → e ≤ 5 → Gen.Src.c17ShouldAcceptTreeKind e = 1) ∧
+    (∀ e, 1 ≤ e → e ≤ 4 → Gen.Src.c17ShouldTransmitTreeKind e = 1) := by
+  refine ⟨rfl, rfl, rfl, rfl, rfl, rfl, rfl, rfl, rfl, rfl, rfl, rfl, rfl, ?_, ?_⟩
+  · intro e h1 h2
+    have : e = 1 ∨ e = 2 ∨ e = 3 ∨ e = 4 ∨ e = 5 := by omega
+    rcases this with rfl | rfl | rfl | rfl | rfl <;> rfl
+  · intro e h1 h2
+    have : e = 1 ∨ e = 2 ∨ e = 3 ∨ e = 4 := by omega
+    rcases this with rfl | rfl | rfl | rfl <;> rfl
+
 end AutoVerif.C17
